@@ -214,6 +214,9 @@ func cmdDump(args []string) int {
 		for _, x := range r.G.resFail {
 			fmt.Printf("  RESOLUTION-FAILURE: %s\n", x)
 		}
+		for _, x := range r.G.degraded {
+			fmt.Printf("  DEGRADED: %s\n", x)
+		}
 		var ns []string
 		for n := range r.G.notes {
 			ns = append(ns, n)
